@@ -74,7 +74,8 @@ def finish(ctx, t0, explanation, undecided, assumptions, out=print):
     Returns the exit code."""
     prop = ctx.prop
     known = {k["key"]: k for k in load_known() if k["property"] == prop and k["status"] == "known"}
-    repdir = os.path.join(VERIF, "reports", prop)
+    OUT = os.environ.get("VERIF_OUT_DIR", VERIF)
+    repdir = os.path.join(OUT, "reports", prop)
     os.makedirs(repdir, exist_ok=True)
     violations = []
     known_hit = []
@@ -144,8 +145,8 @@ def finish(ctx, t0, explanation, undecided, assumptions, out=print):
         "wall_s": round(time.time() - t0, 3),
         "violations": len(violations),
     }
-    os.makedirs(os.path.join(VERIF, "evidence"), exist_ok=True)
-    with open(os.path.join(VERIF, "evidence", prop + ".json"), "w") as fh:
+    os.makedirs(os.path.join(OUT, "evidence"), exist_ok=True)
+    with open(os.path.join(OUT, "evidence", prop + ".json"), "w") as fh:
         json.dump(ev, fh, indent=1)
     out("%s: %d obligations, %d discharged, %d known finding(s), %d violation(s) [tier=%s, tree=%s, %.1fs]" % (
         prop, n, disc, len(known_hit), len(violations), ctx.tier, ctx.facts.hash if ctx.facts else "-", time.time() - t0))
